@@ -362,7 +362,8 @@ func (i *Int) Double(x *Int) {
 
 // IsNegative returns 1 if i is negative.
 func (i *Int) IsNegative() ct.Bool {
-	return ct.Bool((*saferith.Int)(i).IsNegative())
+	// The sign bit can be set on a zero magnitude (e.g. (-3)*0, Neg(0)); zero is not negative.
+	return ct.Bool((*saferith.Int)(i).IsNegative()) & i.IsNonZero()
 }
 
 // IsZero returns 1 if i == 0.
